@@ -348,10 +348,45 @@ def strat_units(tier):
     return st.fixed_dictionaries({"unit": st.sampled_from(sorted(PHYS)), "fmt": st.sampled_from(["xyz", "mol2"]), "entry": st.sampled_from(["one", "all", "ens"]), "mol": molr})
 
 
+def check_big(r) -> list[Fail]:
+    """xyz texts beyond the 1 MiB / 4 MiB marks: many frames of a bundled molecule"""
+    import molli as ml
+    from vf.core import exc_sig, tally
+
+    m = ml.Molecule.load_mol2(getattr(ml.files, r["file"]))
+    nc = r["n_conf"]
+    coords = np.array([np.asarray(m.coords) + 0.001 * k for k in range(nc)])
+    ens = ml.ConformerEnsemble(m, n_conformers=nc, coords=coords)
+    text = ens.dumps_xyz()
+    tally(labels={"text_MiB": round(len(text) / 2**20, 2)})
+    try:
+        back = ml.ConformerEnsemble.loads_xyz(text)
+        frames = ml.CartesianGeometry.loads_all_xyz(text)
+    except Exception as e:
+        return [Fail(f"big:roundtrip-raises:{exc_sig(e) or type(e).__name__}", f"{len(text)} characters, {nc} frames: {e!r}"[:300])]
+    if back.n_conformers != nc or len(frames) != nc:
+        return [Fail("big:frame-count-differs", f"{nc} -> {back.n_conformers} / {len(frames)}")]
+    fails = []
+    if not np.allclose(back.coords, coords, atol=6e-7, rtol=0) or not np.allclose(np.array([f.coords for f in frames]), coords, atol=6e-7, rtol=0):
+        fails.append(Fail("big:coordinates-differ", f"{nc} frames"))
+    if any([int(a.element) for a in f.atoms] != [int(a.element) for a in m.atoms] for f in (frames[0], frames[nc // 2], frames[-1])):
+        fails.append(Fail("big:elements-differ", ""))
+    return fails
+
+
+def enum_big(tier, shard, nshards):
+    cases = [{"file": "dendrobine_mol2", "n_conf": 620}] + ([{"file": "dendrobine_mol2", "n_conf": 2200}] if tier != "quick" else [])
+    for i, c in enumerate(cases):
+        if i % nshards == shard:
+            yield c
+
+
 LEGS = [
     Leg("multi", check_multi, classify_multi, strategy=strat_multi, n={"quick": 800, "thorough": 12000}, shards={"quick": 16, "thorough": 32},
         rule="2-4 DIFFERENT generated geometries written one after another into one xyz text (about half of the consecutive pairs have the same atom count but other elements / order), read through loads_all_xyz / load_all_xyz(stream) / yield_from_xyz for three classes; "
              "non-trivial = two consecutive frames of equal size and different elements"),
+    Leg("big", check_big, lambda r: (True, [f"n_frames={r['n_conf']}"]), enumerate=enum_big, shards={"quick": 1, "thorough": 2},
+        rule="xyz texts beyond 1 MiB (thorough: 4 MiB): 620-2200 frames of a bundled molecule; frame count, every coordinate, sampled elements"),
     Leg("rt", check_rt, classify_rt, strategy=strat_rt, n={"quick": 3000, "thorough": 45000}, shards={"quick": 16, "thorough": 32},
         rule="generated CartesianGeometry / Structure / Molecule (0-12/30 atoms, all elements, dummy atoms, |x| up to 1e7, NaN, inf, -0.0) and ensembles of 1-5 frames; "
              "dumps_xyz -> loads / load(stream) / loads_all / load_all(stream) / ConformerEnsemble.loads_xyz; non-trivial = >=2 atoms with distinct coordinates"),
